@@ -211,10 +211,12 @@ def check_graph(lid, g, edges, hypo):
     # pairs
     und = {(i, j) for (i, j) in edges} | {(j, i) for (i, j) in edges}
     rootset = ref.roots()
-    # (pairs start from real synsets only: the repository's tests pin '==' between any two placeholder
-    # synsets, so "a is b" is not defined for them; placeholders are covered as intermediate and end nodes)
-    for a in real:
-        for b in real:
+    # expanded mode: pairs over the stored synsets and every placeholder navigation reaches ("a is b" means
+    # the same node of the graph, i.e. the same ILI for placeholders - the repository's tests pin '==' between
+    # any two placeholder synsets, so the library cannot use '==' for that and the check does not either)
+    pair_nodes = nodes if expanded else real
+    for a in pair_nodes:
+        for b in pair_nodes:
             for sim in (False, True):
                 exp_c = ref.common(a, b, sim)
                 v, ok = call('common_hypernyms', tx.common_hypernyms, ss[a], ss[b], simulate_root=sim)
